@@ -133,6 +133,13 @@ def invsHaveRevs (s : Stacked) : Bool := s.st.invs.all fun kv => presentRev s kv
 def srcSupplies (src : Repo) (s : Stacked) : Bool :=
   (s.st.revs ++ s.fb.revs).all fun kv => (get src.invs kv.1).isSome
 
+/-- the weaker form that the theorems need: the source holds the inventory of every
+parent of a revision it sends that is a revision of the stack or of its fallback
+(`m` = the revisions sent).  Implied by `srcSupplies`; unlike it, it does not ask the
+source to know the revisions committed on the stacked branch itself. -/
+def srcSuppliesM (src : Repo) (s : Stacked) (m : List Rev) : Bool :=
+  m.all fun k => (parentsL (graph src) k).all fun p => !presentRev s p || (get src.invs p).isSome
+
 /-- what the stream's filter drops for a revision is shared with one of that revision's
 own parents whose revision the source holds (sent or not).  True for histories made by
 commits (an entry a commit introduces carries the committing revision's id, so it
@@ -156,5 +163,88 @@ def topo (r : Repo) : Bool := r.revs.all fun kv => kv.2.parents.all fun p => dec
 
 /-- the fallback and the local store agree on inventories both hold -/
 def invsAgree (s : Stacked) : Bool := agreeOn s.fb.invs s.st.invs
+
+
+/-! ### the invariant the code maintains by design
+
+`_ensure_fallback_inventories`: "for any revision that is present, we either have
+all of the file content, or we have the parent inventory and the delta file
+content".  `get_missing_parent_inventories(check_for_missing_texts=True)` accepts a
+write group whose parent inventories the source could not supply as long as no
+text is missing.  `stackableW` is `stackable` without the demand that the
+inventory of every present parent is stored locally: it is what a fetch from a
+source that cannot supply a parent inventory (the parent is a ghost there, or the
+source is itself stacked) still guarantees, and it is enough to read every tree. -/
+
+def stackableRevW (s : Stacked) (k : Rev) (rec : RevRec) : Bool :=
+  match get s.st.invs k with
+  | none => false
+  | some inv => inv.all fun e => decide (e ∈ parentEntries s rec) || (get s.st.texts e.key).isSome
+
+def stackableW (s : Stacked) : Bool := s.st.revs.all fun kv => stackableRevW s kv.1 kv.2
+
+/-! ### operation sequences on a stacked branch
+
+The history of a stacked branch is a sequence of operations; an operation the
+real code refuses (fetch of an unknown revision, a commit whose parent
+inventories cannot be filled in) leaves the repository as it was. -/
+
+inductive Op where
+  /-- `fetch` / `push` of `rev` from the repository `src` -/
+  | fetch (x : Exclusion) (fg : Bool) (src : Repo) (rev : Rev)
+  /-- a commit on the stacked branch -/
+  | commit (k : Rev) (rec : RevRec) (inv : Inv) (nt : List (TextKey × Nat))
+  /-- `pack()` / autopack -/
+  | pack
+  deriving Repr
+
+def step (s : Stacked) : Op → Stacked
+  | .fetch x fg src rev =>
+    match fetchStacked x fg src s rev with
+    | .ok s' => s'
+    | .error _ => s
+  | .commit k rec inv nt =>
+    match commitStacked s k rec inv nt with
+    | .ok s' => s'
+    | .error _ => s
+  | .pack => pack s
+
+def run : Stacked → List Op → Stacked
+  | s, [] => s
+  | s, o :: os => run (step s o) os
+
+/-- what a fetch needs of its source, evaluated in the state it is applied to: the
+stack (with its fallback) is ancestry-closed w.r.t. the source or ghosts are asked
+for; the source, the local store and the fallback hold equal copies of the
+inventories they share; the source can supply the inventories of the parents (present in the
+stack or its fallback) of what it sends; `exclusionLocal`; the source's history is numbered
+topologically and it holds no inventory without its revision (it is not itself a
+stacked repository opened without its fallback). -/
+def fetchOk (x : Exclusion) (fg : Bool) (src : Repo) (s : Stacked) (rev : Rev) : Bool :=
+  (fg || closed (both s) src) && agreeOn src.invs s.st.invs && agreeOn s.fb.invs src.invs &&
+  srcSuppliesM src s (missing fg src (both s) rev) && exclusionLocal x src (missing fg src (both s) rev) &&
+  topo src && noOrphanInv src
+
+/-- what a commit needs: a fresh revision id larger than its parents' (so not its own
+parent), and the commit writes the text of every entry it introduces -/
+def commitOk (s : Stacked) (k : Rev) (rec : RevRec) (inv : Inv) (nt : List (TextKey × Nat)) : Bool :=
+  !presentRev s k && (get s.st.invs k).isNone && (get s.fb.invs k).isNone &&
+  rec.parents.all (fun p => decide (p < k)) && commitCovers s rec inv nt
+
+def stepOk (s : Stacked) : Op → Bool
+  | .fetch x fg src rev => fetchOk x fg src s rev
+  | .commit k rec inv nt => commitOk s k rec inv nt
+  | .pack => true
+
+/-- every operation of the sequence satisfies its precondition in the state it is applied to -/
+def runOk : Stacked → List Op → Bool
+  | _, [] => true
+  | s, o :: os => stepOk s o && runOk (step s o) os
+
+/-- the invariant of a stacked repository -/
+def good (s : Stacked) : Bool := stackable s && topo s.st && invsAgree s && invsHaveRevs s
+
+/-- a freshly created stacked repository -/
+def emptyOn (fb : Repo) : Stacked := ⟨emptyRepo, fb⟩
 
 end BreezyVerif.C08
